@@ -544,7 +544,18 @@ def tiny_values():
     return st.sampled_from([0.0, 0.0, 1.0, -1.0, 2.0, -2.0, 0.5, 3.0])
 
 
+def float_values():
+    """Arbitrary finite doubles of moderate magnitude (non-dyadic decimals, tiny and large values)."""
+    return st.one_of(
+        st.floats(min_value=-1e6, max_value=1e6, allow_nan=False, allow_infinity=False),
+        st.floats(min_value=-1.0, max_value=1.0, allow_nan=False, allow_infinity=False),
+        st.sampled_from([0.1, 0.2, 0.3, -0.1, 1e-9, -1e-9, 1e6, -1e6, 0.30000000000000004, 1.0 / 3.0, 2.0 / 3.0, 1e-300, 123456.789]),
+    )
+
+
 def values(var_bound=8.0):
+    if var_bound >= 1e6:
+        return float_values()
     small = st.integers(-16, 16).map(lambda k: k / 2.0)
     fine = st.integers(-64, 64).map(lambda k: k / 8.0)
     if var_bound > 8.0:
@@ -564,7 +575,7 @@ def traces(draw, variables, max_n=12, n=None, var_bound=8.0):
     if n is None:
         n = draw(trace_lengths(max_n))
     # one trace in five uses very few distinct values (zeros, ties, plateaus)
-    vs = tiny_values() if draw(st.integers(0, 4)) == 0 else values(var_bound)
+    vs = tiny_values() if (var_bound < 1e6 and draw(st.integers(0, 4)) == 0) else values(var_bound)
     out = {}
     for v in variables:
         out[v] = draw(st.lists(vs, min_size=n, max_size=n))
